@@ -100,12 +100,33 @@ func raceClass(report string) (string, string) {
 }
 
 func shortFn(fn string) string {
-	// strip package path and closure numbering noise
+	// drop generic instantiations "[...]" (possibly nested, possibly cut by
+	// the symbolizer), package paths and closure numbering: keep the
+	// trailing identifier(s) only
+	depth := 0
+	var sb strings.Builder
+	for _, r := range fn {
+		switch {
+		case r == '[':
+			depth++
+		case r == ']':
+			if depth > 0 {
+				depth--
+			}
+		case depth == 0:
+			sb.WriteRune(r)
+		}
+	}
+	fn = sb.String()
+	fn = regexp.MustCompile(`\.func\d+(\.\d+)*`).ReplaceAllString(fn, ".func")
+	// the last path element, then its last two dotted parts
 	if i := strings.LastIndex(fn, "/"); i >= 0 {
 		fn = fn[i+1:]
 	}
-	fn = regexp.MustCompile(`\.func\d+(\.\d+)*`).ReplaceAllString(fn, ".func")
-	fn = regexp.MustCompile(`\[\.\.\.\]`).ReplaceAllString(fn, "")
+	if i := strings.LastIndex(fn, ")."); i >= 0 {
+		fn = fn[i+2:]
+	}
+	fn = strings.Trim(fn, "()*{}; ")
 	return fn
 }
 
@@ -123,6 +144,9 @@ func execute(s sim.Scenario, c choice.Chooser, opt sim.Options) (res sim.Result,
 		}
 		class, first := raceClass(string(b))
 		res.Count("race-reports", strings.Count(string(b), "WARNING: DATA RACE"))
+		if res.Violation != nil && !strings.HasPrefix(res.Violation.Class, "race/") {
+			res.Count("also:"+res.Violation.Class, 1)
+		}
 		if res.Violation == nil || !strings.HasPrefix(res.Violation.Class, "race/") {
 			// a race report outranks its consequences: it is the
 			// root cause and has the stabler class
